@@ -29,6 +29,7 @@ let table_prims : prims = {
   b32_from_base32 = (fun _ -> failwith "bech32 is modelled, not tabulated");
   b32_encode = (fun _ _ -> failwith "bech32 is modelled, not tabulated");
   b32_decode = (fun _ -> failwith "bech32 is modelled, not tabulated");
+  blake2b224 = (fun b -> bytes_of_hex (look ("blake2b224/" ^ hb b)));
 }
 
 (* the cryptographic primitives from the tables, the bech32 codec from the Coq model of the crate *)
@@ -44,6 +45,7 @@ let parse_case (toks : string list) : case =
   | ["wit"; wk; h; k; dp; mg] -> CWit (n_of_string wk, bytes_of_hex h, bytes_of_hex k, opt_b dp, opt_n mg)
   | "derive" :: root :: _n :: path -> CDerive (bytes_of_hex root, List.map n_of_string path)
   | "pubderive" :: xpub :: _n :: path -> CPubDerive (bytes_of_hex xpub, List.map n_of_string path)
+  | ["pkhash"; pk] -> CPkHash (bytes_of_hex pk)
   | ["bip39"; e; pw] -> CBip39 (bytes_of_hex e, bytes_of_hex pw)
   | ["x128"; k] -> CX128 (bytes_of_hex k)
   | ["enc3"; tp; ts; tn; td] -> CEnc3 (bytes_of_hex tp, bytes_of_hex ts, bytes_of_hex tn, bytes_of_hex td)
